@@ -160,6 +160,36 @@ pub fn long_lengths(bits: usize) -> Vec<usize> {
     v
 }
 
+/// Integer constants found in the subject's sources (passed by the driver as `--opt consts=a,b,..`).
+pub fn source_constants() -> Vec<usize> {
+    crate::run::opt("consts").map(|s| s.split(',').filter_map(|x| x.parse().ok()).collect()).unwrap_or_default()
+}
+
+/// Lengths far beyond the small-scope bound, chosen where a block size, fast-path threshold or
+/// capacity boundary would sit: 64, 65 and 128 machine words, 4096 and 8192 symbols, and every
+/// integer constant of the subject's sources read as a count of symbols, bytes, bits or words
+/// (each +-1).  One pattern per length; capped at 70000 symbols.
+pub fn huge_lengths(bits: usize) -> Vec<usize> {
+    let mut c: Vec<usize> = Vec::new();
+    for w in [64usize, 65, 128] {
+        let b = 64 * w / bits;
+        c.extend([b - 1, b, b + 1]);
+    }
+    for k in [4096usize, 8192] {
+        c.extend([k - 1, k, k + 1]);
+    }
+    for k in source_constants() {
+        for l in [k, k * 8 / bits, k / bits, k * 64 / bits] {
+            c.extend([l.saturating_sub(1), l, l + 1]);
+        }
+    }
+    let floor = 64 * 16 / bits + 3;
+    c.retain(|&n| n > floor && n <= 70_000);
+    c.sort();
+    c.dedup();
+    c
+}
+
 pub fn show<A: Codec>(v: &[A]) -> String {
     v.iter().map(|a| a.to_char()).collect()
 }
@@ -243,6 +273,14 @@ pub trait Sx: Codec + Send + Sync + 'static {
         None
     }
     fn seq_cmp_obs(_a: &Seq<Self>, _b: &Seq<Self>) -> Option<CmpObs> {
+        None
+    }
+    /// symbol-level `Display` (only amino::Amino has one)
+    fn display1(self) -> Option<String> {
+        None
+    }
+    /// `u8::from(symbol)` where the codec offers it
+    fn into_u8(self) -> Option<u8> {
         None
     }
 }
@@ -330,13 +368,25 @@ impl Sx for Dna {
 }
 impl Sx for Iupac {
     const CID: Cid = Cid::Iupac;
+    fn into_u8(self) -> Option<u8> {
+        Some(u8::from(self))
+    }
     sx_comp!();
 }
 impl Sx for Amino {
     const CID: Cid = Cid::Amino;
+    fn display1(self) -> Option<String> {
+        Some(format!("{self}"))
+    }
+    fn into_u8(self) -> Option<u8> {
+        Some(u8::from(self))
+    }
 }
 impl Sx for TDna {
     const CID: Cid = Cid::Text;
+    fn into_u8(self) -> Option<u8> {
+        Some(u8::from(self))
+    }
     sx_ord!();
 }
 impl Sx for MDna {
